@@ -177,8 +177,13 @@ package unmarshal
 
 
 // customErrors constructors: never nil.
-//@ func parseTime
+// An entry timestamp is stored with the nanoseconds it was sent with: an RFC3339 text
+// is the instant it names to the nanosecond (not to the millisecond), an integer text is
+// that integer.
+//@ func parseTime [C03]
+//@   flag checks=-index,-assert
 //@   modifies nothing
+//@   check the-timestamp-keeps-its-nanoseconds: result1 == nil ==> result0 == t.UnixNano() || result0 == timestamp
 // The one label sanitiser shared by the Loki JSON (both layouts), Loki protobuf,
 // remote-write and Influx decoders: the name is rewritten with the label-name pattern,
 // a value of AT MOST 100 bytes is stored as it was sent (two streams that differ only
@@ -276,7 +281,7 @@ package unmarshal
 
 // One stream object: buffers are emptied, filled by decodeStream and handed to
 // the row builder, which requires them to be aligned.
-//@ func (*pushRequestDec).Decode$1$1 [C03]
+//@ func (*pushRequestDec).Decode$1$1 [C03,C04]
 
 // ---------------------------------------------------------------- single-entry decoders
 
@@ -537,3 +542,12 @@ package unmarshal
 //@     invariant len(p.profile.SamplesTypesUnits) == 0 && rangeindex == -1 ==> size == profFixed(p)
 //@     step each-tag-adds-its-two-lengths: size == prev(size) + len(p.profile.Tags[rangeindex].Str1) + len(p.profile.Tags[rangeindex].Str2)
 //@   check fixed-parts-counted-once: len(p.profile.SamplesTypesUnits) == 0 && len(p.profile.Tags) == 0 ==> result == profFixed(p)
+
+// A panic in a parser goroutine becomes an error response: the error is SENT on the
+// result channel and only then is the channel closed (closing first would end the
+// handler's loop without an error - the client is told success - and the send on the
+// closed channel would panic again, this time with nothing left to recover it).
+//@ ghost var closeCalls int
+//@ func (*parserDoer).tamePanic [C05]
+//@   flag checks=-index,-assert
+//@   at chan.send the-error-is-sent-before-the-channel-is-closed: closeCalls == old(closeCalls)
